@@ -8,7 +8,7 @@ from unittest import mock
 from hypothesis import strategies as st
 
 from pbt import files, gridded as G
-from pbt.core import call
+from pbt.core import call, workdir
 
 PROP = "C13"
 TECHNIQUE = "model-based / stateful testing over operation histories: Hypothesis RuleBasedStateMachine + exhaustive enumeration of all operation sequences up to length 3 (thorough 4) on every configuration + Hypothesis-sampled longer sequences; invariants checked after every step against a reference list of filtered catalogs"
@@ -76,7 +76,7 @@ class World:
         self.mean /= self.n
         self.path = None
         if self.src != "list":
-            self.path = os.path.join(tmpdir, "fc_%d.csv" % id(self))
+            self.path = os.path.join(tmpdir, "forecast.csv")
             files.write_catalog_forecast(self.path, self.raw, ["omit" if i % 2 else "placeholder" for i in range(self.n)], header=bool(self.n % 2), frac="us")
 
     def forecast(self):
@@ -87,7 +87,18 @@ class World:
         kw = dict(region=region, filters=list(self.filters), apply_filters=bool(self.flt or self.sp), filter_spatial=self.sp,
                   start_time=G.T0, end_time=G.T1, name="cf")
         if self.src == "list":
-            cats = [CSEPCatalog(data=list(evs), catalog_id=i, region=region) for i, evs in enumerate(self.raw)]
+            # the in-memory catalogs may come without a region, with the forecast's region object, or bound to another region
+            # object (same cells listed in reverse order): the forecast's region decides where events are counted
+            mode = self.case.get("cat_region", "same")
+            if mode == "none":
+                creg = None
+            elif mode == "permuted" and len(self.S.L.cells) >= 2 and not self.sp:
+                from pbt import lattice as _lat
+                Lp = _lat.Lattice(dict(self.case["setup"]["region"], cells=list(reversed(self.case["setup"]["region"]["cells"]))))
+                creg = Lp.build("from_origins", magnitudes=numpy.array(self.S.edges))
+            else:
+                creg = region
+            cats = [CSEPCatalog(data=list(evs), catalog_id=i, region=creg) for i, evs in enumerate(self.raw)]
             return CatalogForecast(catalogs=cats, n_cat=len(cats), **kw)
         return csep.load_catalog_forecast(self.path, store=(self.src == "file_store"), **kw)
 
@@ -241,7 +252,7 @@ class Session:
 
 
 def check_case(ctx, case):
-    with tempfile.TemporaryDirectory() as d:
+    with workdir() as d:
         W = World(case, d)
         sess = Session(ctx, W)
         for op in case["ops"]:
@@ -294,6 +305,7 @@ def cases(draw):
         cats[0].append([0, 0, "in"])
     ops = draw(st.lists(st.sampled_from(OPS), min_size=1, max_size=8))
     return {"setup": setup, "cats": cats, "config": list(config), "ops": ops, "verbose": draw(st.integers(0, 3)) == 0,
+            **({"cat_region": draw(st.sampled_from(["none", "permuted"]))} if src == "list" and draw(st.booleans()) else {}),
             **({"repeat": draw(st.sampled_from([20, 40]))} if draw(st.integers(0, 11)) == 0 else {})}
 
 
